@@ -150,7 +150,49 @@ def rule_dispatch(ctx):
                 n, floor=12, samples=samples)
 
 
+def rule_bs_coupling(ctx):
+    """R01.7: in the modified-midpoint sub-steps of Bulirsch-Stoer every evaluation of all ODE right-hand sides at the
+    intermediate state y1 is preceded by copying the N-body part of y1 into the particles (user ODEs that depend on the
+    N-body state are evaluated first and read the particle array)."""
+    from ..cfront import walk, strip, render, line_of, callee_name, call_args
+    tu = cfront.load_tu('integrator_bs.c')
+    fn = tu.func('tryStep')
+    n = 0
+    samples = []
+    for comp in walk(cfront.body(fn)):
+        if comp.get('kind') != 'CompoundStmt':
+            continue
+        items = comp.get('inner', [])
+        for i, st in enumerate(items):
+            if st.get('kind') != 'ForStmt':
+                continue
+            calls = [e for e in walk(st) if e.get('kind') == 'CallExpr' and callee_name(e) is None and render(e['inner'][0]).endswith('.derivatives')]
+            if not calls:
+                continue
+            nested = [x for x in walk(st['inner'][-1]) if x.get('kind') == 'ForStmt']
+            if any(c_ in list(walk(nf)) for nf in nested for c_ in calls):
+                continue      # the call belongs to an inner loop, which is visited on its own
+            state = render(call_args(calls[0])[2])
+            if not state.endswith('.y1'):
+                continue
+            n += 1
+            where = 'src/integrator_bs.c:%s tryStep' % line_of(st)
+            prev = items[i - 1] if i > 0 else None
+            ok = False
+            if prev is not None and prev.get('kind') == 'IfStmt' and render(prev['inner'][0]) == 'needs_nbody':
+                for e in walk(prev['inner'][1]):
+                    if e.get('kind') == 'CallExpr' and callee_name(e) == 'reb_integrator_bs_update_particles' and render(call_args(e)[1]).endswith('nbody_ode.y1'):
+                        ok = True
+            if not ok:
+                ctx.report('R01.7', 'bs:tryStep:update-before-derivatives', where,
+                           'the right-hand sides are evaluated at the intermediate state y1 without first copying the N-body part of y1 into the particle array: '
+                           'user ODEs coupled to the N-body system read the positions of the previous sub-step')
+            samples.append('%s: derivatives at %s preceded by particle update: %s' % (where, state, ok))
+    ctx.covered('R01.7', 'Bulirsch-Stoer sub-steps: particle array refreshed from y1 before the coupled right-hand sides are evaluated', n, floor=2, samples=samples)
+
+
 def run(ctx):
+    rule_bs_coupling(ctx)
     rule_dispatch(ctx)
     rule_compositions(ctx)
     rule_processors(ctx)
